@@ -58,10 +58,11 @@ def mix(rng, n, T=16, C=8, io=4, hi=3, kinds=None, sizes=None, attempts=2):
     return spec
 
 
-def sprinkle(cases, seed, p_bw=0.12, p_log=0.08):
+def sprinkle(cases, seed, p_bw=0.12, p_log=0.08, p_prior=0.08):
     """Orthogonal configuration dimensions for end-to-end cases written without them (transfer-manager front-end only): a generous
     bandwidth limit (every body is then wrapped by the limiter, nothing is ever throttled) and the package's loggers at DEBUG with a
-    formatting handler.  A separate generator keeps the cases themselves unchanged."""
+    formatting handler, and a client with a history (a legacy S3Transfer / an earlier manager already used on it).  A separate generator
+    keeps the cases themselves unchanged."""
     r = random.Random(seed * 7919 + 13)
     for c in cases:
         if not isinstance(c, dict) or c.get('front_end', 'manager') != 'manager' or 'transfers' not in c or c.get('type'):
@@ -72,4 +73,6 @@ def sprinkle(cases, seed, p_bw=0.12, p_log=0.08):
             cfg['max_bandwidth'] = 10 ** 12
         if b < p_log and 'debug_log' not in c and not c.get('real'):
             c['debug_log'] = True
+        if r.random() < p_prior and 'prior_use' not in c and not c.get('real'):
+            c['prior_use'] = r.choice(['legacy', 'manager'])
     return cases
